@@ -162,6 +162,20 @@ TIES = [
     ('tp_rh_init', 'mtbl/threadpool.c', 'result_handler_init', ALL, ['C18']),
     ('tp_pool_init', 'mtbl/threadpool.c', 'mtbl_threadpool_init', ALL, ['C18']),
     ('tp_pool_destroy', 'mtbl/threadpool.c', 'mtbl_threadpool_destroy', ALL, ['C18']),
+    ('info_print', 'src/mtbl_info.c', 'print_info', ALL, ['C10']),
+    ('dump_main', 'src/mtbl_dump.c', 'main', ALL, ['C01']),
+    ('dump_print_hex', 'src/mtbl_dump.c', 'print_hex_string', ALL, ['C01']),
+    ('dump_print_string', 'libmy/print_string.h', 'print_string', ALL, ['C01']),
+    ('merge_tool_init_dso', 'src/mtbl_merge.c', 'init_dso', ALL, ['C04']),
+    ('merge_tool_init_mtbl', 'src/mtbl_merge.c', 'init_mtbl', ALL, ['C04']),
+    ('merge_tool_merge', 'src/mtbl_merge.c', 'merge', ALL, ['C04']),
+    ('merge_tool_main', 'src/mtbl_merge.c', 'main', ALL, ['C04']),
+    ('source_init', 'mtbl/source.c', 'mtbl_source_init', ALL, ['C02']),
+    ('source_get', 'mtbl/source.c', 'mtbl_source_get', ALL, ['C02']),
+    ('source_get_prefix', 'mtbl/source.c', 'mtbl_source_get_prefix', ALL, ['C02']),
+    ('source_get_range', 'mtbl/source.c', 'mtbl_source_get_range', ALL, ['C02']),
+    ('iter_seek', 'mtbl/iter.c', 'mtbl_iter_seek', ALL, ['C03', 'C05']),
+    ('iter_next', 'mtbl/iter.c', 'mtbl_iter_next', ALL, ['C03', 'C05']),
 ]
 
 def coq_str(s):
